@@ -157,7 +157,7 @@ class Ctx:
         return r
 
     # ------------------------------------------------------------------ judge
-    def judge(self, module, obs_files, cfg=None, env=None, timeout=1800, heap="3g", par=None):
+    def judge(self, module, obs_files, cfg=None, env=None, timeout=1800, heap="3g", par=None, envs=None):
         """F3: run the TLC trace specification over each observation shard (parallel processes).
         The judge prints <<"REJECT", lineNo, "signature">> per unexplained line and <<"DONE", lines, bad>> at the end.
         Returns list of (file, lineNo, signature)."""
@@ -167,6 +167,7 @@ class Ctx:
 
         def one(f):
             e = dict(env or {})
+            e.update((envs or {}).get(f, {}))
             e["OBS"] = f
             out, st = self.tlc(module, cfg, env=e, workers=1, timeout=timeout, heap=heap)
             return f, out, st
